@@ -2,7 +2,11 @@ module vh
 
 go 1.23.0
 
-require github.com/folbricht/desync v0.0.0
+require (
+	github.com/folbricht/desync v0.0.0
+	github.com/minio/minio-go/v6 v6.0.57
+	github.com/pkg/sftp v1.13.5
+)
 
 require (
 	cloud.google.com/go v0.110.0 // indirect
@@ -26,13 +30,11 @@ require (
 	github.com/kr/fs v0.1.0 // indirect
 	github.com/mattn/go-runewidth v0.0.14 // indirect
 	github.com/minio/md5-simd v1.1.2 // indirect
-	github.com/minio/minio-go/v6 v6.0.57 // indirect
 	github.com/minio/sha256-simd v1.0.0 // indirect
 	github.com/mitchellh/go-homedir v1.1.0 // indirect
 	github.com/modern-go/concurrent v0.0.0-20180306012644-bacd9c7ef1dd // indirect
 	github.com/modern-go/reflect2 v1.0.2 // indirect
 	github.com/pkg/errors v0.9.1 // indirect
-	github.com/pkg/sftp v1.13.5 // indirect
 	github.com/pkg/xattr v0.4.9 // indirect
 	github.com/rivo/uniseg v0.2.0 // indirect
 	github.com/sirupsen/logrus v1.9.0 // indirect
